@@ -175,6 +175,8 @@ class Runner(object):
         self._extra_src = []
         self._id = 0
         self._lock = threading.Lock()
+        self.timings = []  # (cpu_s, wall_s, budget_s, function, state) per CrossHair query
+        self.budget_retries = []  # functions re-run once with RETRY_FACTOR x the budget
 
     # -- rendering ------------------------------------------------------------
     CHUNK = 1500
@@ -241,10 +243,29 @@ class Runner(object):
             "fn": fn,
             "timeout": timeout,
         }
+        t0 = time.time()
         res = worker.request(req, wall_limit=timeout * 4 + 60)
         with self._lock:
             self.report.solver_cpu_s += float(res.get("cpu_s") or 0.0)
             self.report.count_query("crosshair")
+            self.timings.append((round(float(res.get("cpu_s") or 0.0), 1), round(time.time() - t0, 1), timeout, fn, res.get("state")))
+        return res
+
+    # A budget is a wall-clock limit, so how much of the path tree it covers depends
+    # on the machine and its load (c17_0119 needs 77 s of a 90 s budget on an idle
+    # 16-core sandbox and ran out on a slower restore).  An exhausted budget -- and
+    # only that: "Not confirmed" is neither a verdict nor a counterexample -- is
+    # followed by one re-run with RETRY_FACTOR times the budget.  More time can turn
+    # "Not confirmed" into "Confirmed over all paths" or into a counterexample
+    # (replayed as usual), never a counterexample into a pass.
+    RETRY_FACTOR = 4
+
+    def _analyze_budgeted(self, worker, module, fn, timeout):
+        res = self._analyze(worker, module, fn, timeout)
+        if res.get("state") in ("CANNOT_CONFIRM", "WALL_TIMEOUT"):
+            with self._lock:
+                self.budget_retries.append(fn)
+            res = self._analyze(worker, module, fn, timeout * self.RETRY_FACTOR)
         return res
 
     def _native(self, worker, module, fn, call):
@@ -287,7 +308,7 @@ class Runner(object):
         extra_pre = []
         verdict = None
         for _attempt in range(4):
-            res = self._analyze(worker, module, fn, ob.timeout)
+            res = self._analyze_budgeted(worker, module, fn, ob.timeout)
             state = res.get("state")
             if state == "CONFIRMED":
                 verdict = ("confirmed", res)
@@ -322,7 +343,7 @@ class Runner(object):
         if ob.kind == "main" and verdict[0] == "confirmed":
             for code in ob.twin_codes:
                 tfn = "{0}__tw{1}".format(ob.name, code)
-                res = self._analyze(worker, home, tfn, ob.timeout)
+                res = self._analyze_budgeted(worker, home, tfn, ob.timeout)
                 ok = False
                 detail = res
                 if res.get("state") == "POST_FAIL":
@@ -396,6 +417,11 @@ class Runner(object):
         for t in threads:
             t.join()
 
+        report.extra["slowest_queries"] = [
+            {"cpu_s": c, "wall_s": w, "budget_s": b, "function": f, "state": st}
+            for c, w, b, f, st in sorted(self.timings, reverse=True)[:10]
+        ]
+        report.extra["budget_retries"] = {"factor": self.RETRY_FACTOR, "functions": sorted(self.budget_retries)[:50]}
         if counters["skipped"]:
             report.extra["obligations_not_run_after_circuit_breaker"] = counters["skipped"]
             if counters["viol"] < max_viol:
